@@ -70,8 +70,8 @@ HAND_INVALID = ['(', ')', 'a)(b', '*a', 'a|*', '(*)', 'a{2,1}', 'a{,3}', 'a{', '
 def gen_cases(run, tier):
     rng = run.rng
     cases = []
-    n_pat = 320 if tier == 'quick' else 9000
-    n_pathy = 90 if tier == 'quick' else 1200
+    n_pat = 1000 if tier == 'quick' else 10000
+    n_pathy = 200 if tier == 'quick' else 1500
     for i in range(n_pat):
         nf = rng.choice([1, 1, 1, 1, 2, 2, 3, 4])
         fl = [(rng.choice('+-'), FL.gen_pattern(rng)) for _ in range(nf)]
@@ -167,7 +167,7 @@ E2E_FILTERS = [
 def e2e_cases(run, binary, jbin, tmp, tier):
     rng = run.rng
     found = []
-    n = 36 if tier == 'quick' else 400
+    n = 60 if tier == 'quick' else 500
     placements = ['LL'] * 3 + ['RL', 'LR', 'RR']
     fake = e2e.fake_ssh_dir(tmp)
     for i in range(n):
